@@ -388,6 +388,17 @@ fn hist_strategy(_t: Tier) -> BoxedStrategy<Hist> {
                 .map(|(mut q, pick)| {
                     if pick % 2 == 0 && !mentioned.is_empty() {
                         q.name = mentioned[gen::pick(pick, mentioned.len())].clone();
+                    } else if pick % 8 == 1 {
+                        // a name-like string of the sources (a service prefix the responder might special-case) in
+                        // front of a suffix of a mentioned name
+                        let dn = gen::dict_names();
+                        let base = if mentioned.is_empty() { AName::from_strs(&["local"]) } else { mentioned[gen::pick(pick >> 3, mentioned.len())].clone() };
+                        let skip = ((pick >> 6) as usize % 3).min(base.0.len().saturating_sub(1));
+                        let mut labels = dn[gen::pick(pick.rotate_left(5), dn.len())].0.clone();
+                        labels.extend(base.0[skip..].iter().cloned());
+                        if AName(labels.clone()).is_valid() {
+                            q.name = AName(labels);
+                        }
                     }
                     q
                 })
